@@ -95,7 +95,10 @@ def build_expr(s, counter=None):
         cls = [AddExpression, MultiplyExpression, SubtractExpression, DivideExpression, PowerExpression][k % 5]
         return cls(l, r)
     if l is None and r is None:
-        return ConstantExpression(k) if k % 2 else VariableExpression("xyz"[k % 3])
+        if k % 2 == 0:
+            return VariableExpression("xyz"[k % 3])
+        # int, whole-valued float, decimal and negative constants
+        return ConstantExpression([k, float(k), k + 0.5, -k][(k // 2) % 4])
     cls = [NegateExpression, SgnExpression, FactorialExpression][k % 3]
     if l is not None:
         return cls(l, child_on_left=True)
